@@ -136,6 +136,10 @@ def explore(root, tier, ctx):
                     for h in HS:
                         for aj in (True, False):
                             check_group(notes, tails, v, h, aj, ctx, pat)
+                # the jack switch given as a truthy value that is not the Python True (a numpy bool, the int 1)
+                for aj in ("np_true", "int1"):
+                    check_group(notes, tails, 50, 1, aj, ctx, pat)
+                    check_group(notes, tails, 1000, None, aj, ctx, pat)
         return
     key = ("B", tier)
     if key not in _CACHE:
@@ -185,7 +189,11 @@ def check_group(notes, tails, v, h, aj, ctx, pat=None):
         if isinstance(pat, Exception):
             raise pat
         before = pat.df.copy()
-        groups = pat.group(v, h, aj)
+        import numpy as np
+
+        aj_arg = np.bool_(True) if aj == "np_true" else 1 if aj == "int1" else aj
+        aj = bool(aj_arg)
+        groups = pat.group(v, h, aj_arg)
         if not before.equals(pat.df):
             pat = None  # group() changed the pattern: the shared object cannot be trusted, rebuild for the next call
             raise RuntimeError("Pattern.group modified the pattern it was called on")
